@@ -710,6 +710,12 @@ func cdsHeadlessOnly(req *model.PushRequest) bool {
 	return req.Reason.Has(model.HeadlessEndpointUpdate) && len(req.Reason) == 1 && model.VerifAllKind(req.ConfigsUpdated, kind.ServiceEntry)
 }
 
+// cdsWaypointRule: an address change that concerns this waypoint.
+func cdsWaypointRule(req *model.PushRequest, proxy *model.Proxy) bool {
+	return model.VerifHasKind(req.ConfigsUpdated, kind.Address) &&
+		(proxy.IsAmbientEastWestGateway() || !features.ScopedAddressPushes || waypointAttached(req, proxy))
+}
+
 // cdsDecision: the push decision of cdsNeedsPush, as a function of the request and the proxy.
 func cdsDecision(req *model.PushRequest, proxy *model.Proxy) bool {
 	if proxy.Type == model.Ztunnel {
@@ -718,8 +724,7 @@ func cdsDecision(req *model.PushRequest, proxy *model.Proxy) bool {
 	if req == nil || req.Forced {
 		return true
 	}
-	if proxy.Type == model.Waypoint && model.VerifHasKind(req.ConfigsUpdated, kind.Address) &&
-		(proxy.IsAmbientEastWestGateway() || !features.ScopedAddressPushes || waypointAttached(req, proxy)) {
+	if proxy.Type == model.Waypoint && cdsWaypointRule(req, proxy) {
 		return true
 	}
 	if cdsHeadlessOnly(req) {
@@ -742,6 +747,13 @@ func ctCdsNeedsPush(req *model.PushRequest, proxy *model.Proxy) {
 	verif.Ensures("narrowed-request-keeps-relevant-keys", req == nil || out == nil || verif.Forall(func(k model.ConfigKey) bool {
 		return !(verif.Old(func() bool { return cuHas(req, k) }) && cdsRelevant(k, proxy)) || cuHas(out, k) || !push
 	}))
+	// ... and, when the push is owed to an address change that concerns this waypoint, the address keys the
+	// decision rests on (otherwise the generator is told to rebuild without being told what changed)
+	verif.Ensures("narrowed-request-keeps-the-address-keys-of-a-waypoint-push", req == nil || out == nil ||
+		!verif.Old(func() bool { return proxy.Type == model.Waypoint && cdsWaypointRule(req, proxy) }) ||
+		verif.Forall(func(k model.ConfigKey) bool {
+			return !(verif.Old(func() bool { return cuHas(req, k) }) && k.Kind == kind.Address) || cuHas(out, k)
+		}))
 }
 
 //verif:invariant cdsNeedsPush 1
